@@ -94,6 +94,7 @@ func (fx *FnExec) Run() (obls []*Obligation, err error) {
 		}
 	}
 	fx.heap0 = copyHeap(entry.heap)
+	fx.initFrame()
 	entry.done = false
 
 	for _, b := range order {
@@ -374,6 +375,16 @@ func (fx *FnExec) enterLoop(b *ssa.BasicBlock, li *loopInfo, st *blockState) {
 		if fx.monotoneUp(phi, b) {
 			fx.assume("(>= " + h + " " + entryPhi[phi].S + ")")
 		}
+		// automatic ownership invariant: a variable that only ever holds nil or objects built by this
+		// activation (make, literals, append chains) is nil or fresh in every iteration
+		if localOnly(phi, map[ssa.Value]bool{}) {
+			switch phi.Type().Underlying().(type) {
+			case *types.Slice:
+				fx.assume("(or (and (= (s.arr " + h + ") 0) (= (s.cap " + h + ") 0)) (> (s.arr " + h + ") " + fx.allocBase() + "))")
+			case *types.Map, *types.Pointer:
+				fx.assume("(or (= " + h + " 0) (> " + h + " " + fx.allocBase() + "))")
+			}
+		}
 	}
 	// 3. assume invariants for an arbitrary iteration
 	for _, inv := range invs {
@@ -512,7 +523,7 @@ func (fx *FnExec) loopInvariants(li *loopInfo) []*CExpr {
 	if fx.C == nil {
 		return nil
 	}
-	return fx.C.LoopInv[li.ordinal]
+	return append(append([]*CExpr{}, fx.C.LoopInv[-1]...), fx.C.LoopInv[li.ordinal]...)
 }
 
 func (fx *FnExec) loopDecreases(li *loopInfo) *CExpr {
@@ -576,6 +587,7 @@ func (fx *FnExec) execInstr(in ssa.Instruction) {
 		if fx.onStore != nil {
 			fx.onStore(fx, x, pl, v)
 		}
+		fx.frameCheckPlace(x, pl)
 		fx.store(pl, fx.term(v))
 	case *ssa.Slice:
 		fx.execSlice(x)
@@ -626,8 +638,38 @@ func (fx *FnExec) execInstr(in ssa.Instruction) {
 	case *ssa.Call:
 		fx.execCall(x, x.Common(), x)
 	case *ssa.Defer:
-		fx.execCall(x, x.Common(), nil) // conservatively executed now as well as at exit (effects are havoc either way)
+		var args []Val
+		c := x.Common()
+		if c.IsInvoke() {
+			args = append(args, fx.val(c.Value))
+		}
+		for _, a := range c.Args {
+			v := fx.val(a)
+			if v.S == "" {
+				v.S = fx.term(v)
+			}
+			args = append(args, v)
+		}
+		fx.deferred = append(fx.deferred, deferredCall{in: x, args: args, block: x.Block()})
 	case *ssa.RunDefers:
+		// deferred calls run in LIFO order; a defer registered on a path that does not dominate this
+		// exit is executed as well (its effects are havoc, its preconditions are checked under the
+		// path condition of the registering block)
+		for i := len(fx.deferred) - 1; i >= 0; i-- {
+			d := fx.deferred[i]
+			st := fx.bs[d.block]
+			if st == nil || !st.done && d.block != fx.curBlock {
+				continue
+			}
+			if !d.block.Dominates(fx.curBlock) {
+				save := fx.cur.pc
+				fx.cur.pc = and(save, st.pc)
+				fx.execCallArgs(d.in, d.in.Common(), nil, d.args)
+				fx.cur.pc = save
+				continue
+			}
+			fx.execCallArgs(d.in, d.in.Common(), nil, d.args)
+		}
 	case *ssa.Go:
 		fx.outside = append(fx.outside, "go statement")
 	case *ssa.Send, *ssa.Select:
@@ -777,6 +819,7 @@ func (fx *FnExec) execMapUpdate(x *ssa.MapUpdate) {
 	if fx.onStore != nil {
 		fx.onStore(fx, x, &Place{Kind: PCell, Ref: m, Elem: mt}, Val{})
 	}
+	fx.frameCheckMap(x, mt, m)
 	fx.mapStore(mt, m, k, v)
 }
 
@@ -1335,6 +1378,10 @@ func (fx *FnExec) execReturn(x *ssa.Return) {
 	if fx.onReturn != nil {
 		fx.onReturn(fx, x, vals)
 	}
+	if fx.C != nil && fx.C.Fresh && !fx.C.Assumed && len(vals) > 0 {
+		o := fx.oblige("fresh", "(> "+vals[0].S+" "+fx.allocBase()+")", x, "result is an object allocated (or taken from a pool) by this activation")
+		o.Props = fx.C.Props
+	}
 	if fx.C != nil {
 		env := &evalEnv{fx: fx, heap: fx.cur.heap, oldHeap: fx.heap0, rets: vals}
 		for k, e := range fx.C.Ensures {
@@ -1348,4 +1395,39 @@ func (fx *FnExec) execReturn(x *ssa.Return) {
 			o.Extra = map[string]string{"ensures": fmt.Sprint(k + 1)}
 		}
 	}
+}
+
+// localOnly: the value is nil or an object allocated by this activation on every path
+// (coinductive over phis).
+func localOnly(v ssa.Value, seen map[ssa.Value]bool) bool {
+	if seen[v] {
+		return true
+	}
+	seen[v] = true
+	switch x := v.(type) {
+	case *ssa.Const:
+		return x.Value == nil // nil
+	case *ssa.MakeSlice, *ssa.MakeMap, *ssa.Alloc:
+		return true
+	case *ssa.Slice:
+		return localOnly(x.X, seen)
+	case *ssa.Phi:
+		for _, e := range x.Edges {
+			if !localOnly(e, seen) {
+				return false
+			}
+		}
+		return true
+	case *ssa.Call:
+		if b, ok := x.Call.Value.(*ssa.Builtin); ok && b.Name() == "append" {
+			return localOnly(x.Call.Args[0], seen)
+		}
+	case *ssa.Convert:
+		if _, ok := x.Type().Underlying().(*types.Slice); ok {
+			if b, ok := x.X.Type().Underlying().(*types.Basic); ok && b.Info()&types.IsString != 0 {
+				return true
+			}
+		}
+	}
+	return false
 }
